@@ -335,7 +335,7 @@ func (e *Engine) globalByName(pkgPath, name string) Value {
 }
 
 // errIs unfolds errors.Is(a, b) through the error types the library uses.
-func (e *Engine) errIs(h map[string]*Term, a, b IfaceV, depth int) *Term {
+func (e *Engine) errIs(h map[string]*Term, a, b IfaceV, depth int, note func(*Term)) *Term {
 	same := And(Eq(a.Tag, b.Tag), Eq(a.Val, b.Val))
 	nonNil := Neq(a.Tag, IntLit(0))
 	pe := e.pathErrorPtr()
@@ -344,7 +344,15 @@ func (e *Engine) errIs(h map[string]*Term, a, b IfaceV, depth int) *Term {
 	leaf := pseudoTag("errorString")
 	leaf2 := pseudoTag("fmtError")
 	if depth == 0 {
-		return And(nonNil, Or(same, App("errIsDeep", BoolS, a.Tag, a.Val, b.Tag, b.Val)))
+		// leaf rule: below the unfolding depth a wrapper no longer matches through its Err field
+		e.trusted["errors.Is is unfolded through at most 3 symbolic *PathError/*LinkError wrappers; deeper chains are treated as not matching"] = true
+		var cs []*Term
+		cs = append(cs, same)
+		if errnoT != nil && !knownNotTag(a.Tag, tagTerm(errnoT)) {
+			cs = append(cs, And(Eq(a.Tag, tagTerm(errnoT)), e.errnoIs(a.Val, b)))
+		}
+		cs = append(cs, And(Neq(a.Tag, tagTerm(pe)), Neq(a.Tag, tagTerm(le)), Neq(a.Tag, leaf), Neq(a.Tag, leaf2), Neq(a.Tag, tagTerm(errnoT)), App("errIsOpaque", BoolS, a.Tag, a.Val, b.Tag, b.Val)))
+		return And(nonNil, Or(cs...))
 	}
 	peN := namedOf(pe.(*types.Pointer).Elem())
 	leN := namedOf(le.(*types.Pointer).Elem())
@@ -357,15 +365,31 @@ func (e *Engine) errIs(h map[string]*Term, a, b IfaceV, depth int) *Term {
 		}
 		panic("field")
 	}
+	// Stepping through a wrapper this function constructed itself (literal tag) costs no depth, so that
+	// errIs(wrap(inner)) and errIs(inner) unfold inner identically.
+	step := depth - 1
+	if a.Tag.IsInt() {
+		step = depth
+	}
 	var cases []*Term
 	cases = append(cases, same)
 	if !knownNotTag(a.Tag, tagTerm(pe)) {
 		inner := readField(h, peN, idx(peN, "Err"), a.Val).(IfaceV)
-		cases = append(cases, And(Eq(a.Tag, tagTerm(pe)), e.errIs(h, inner, b, depth-1)))
+		if note != nil {
+			for _, f := range typeFacts(e.errorType(), inner, Const("heaptop", IntS)) {
+				note(Implies(Eq(a.Tag, tagTerm(pe)), f))
+			}
+		}
+		cases = append(cases, And(Eq(a.Tag, tagTerm(pe)), e.errIs(h, inner, b, step, note)))
 	}
 	if !knownNotTag(a.Tag, tagTerm(le)) {
 		inner := readField(h, leN, idx(leN, "Err"), a.Val).(IfaceV)
-		cases = append(cases, And(Eq(a.Tag, tagTerm(le)), e.errIs(h, inner, b, depth-1)))
+		if note != nil {
+			for _, f := range typeFacts(e.errorType(), inner, Const("heaptop", IntS)) {
+				note(Implies(Eq(a.Tag, tagTerm(le)), f))
+			}
+		}
+		cases = append(cases, And(Eq(a.Tag, tagTerm(le)), e.errIs(h, inner, b, step, note)))
 	}
 	if errnoT != nil && !knownNotTag(a.Tag, tagTerm(errnoT)) {
 		cases = append(cases, And(Eq(a.Tag, tagTerm(errnoT)), e.errnoIs(a.Val, b)))
